@@ -47,6 +47,9 @@ type CheckResult struct {
 	Wall       float64
 }
 
+// Progress, when set, is called as each unit finishes.
+var Progress func(r *UnitResult)
+
 var lemmaPropRe = regexp.MustCompile(`^gvcL_(C\d+)_`)
 
 // rootsFor collects the functions and lemmas that carry clauses tagged with
@@ -113,6 +116,9 @@ func RunUnits(p *Program, specs []UnitSpec, cfg Config) []*UnitResult {
 				r.Kind = specs[i].Kind
 			}
 			out[i] = r
+			if Progress != nil {
+				Progress(r)
+			}
 		}(i)
 	}
 	wg.Wait()
